@@ -1,13 +1,13 @@
 package main
 
 import (
-	"go/token"
-	"time"
-	"go/constant"
 	"fmt"
+	"go/constant"
+	"go/token"
 	"go/types"
 	"reflect"
 	"strings"
+	"time"
 
 	"golang.org/x/tools/go/ssa"
 )
@@ -82,17 +82,37 @@ func runC09(r *Report) {
 			}
 			n++
 			bounded := true
-			var check func(v ssa.Value, from *ssa.BasicBlock, depth int) bool
-			check = func(v ssa.Value, from *ssa.BasicBlock, depth int) bool {
+			var check func(v ssa.Value, from, to *ssa.BasicBlock, depth int) bool
+			check = func(v ssa.Value, from, to *ssa.BasicBlock, depth int) bool {
 				if depth > 4 {
 					return false
 				}
 				if _, isC := ConstInt(v); isC {
 					return true
 				}
+				// computed by a same-package helper (nextPollInterval(cur)): bounded if every value the
+				// helper returns is
+				if hc, isC := v.(*ssa.Call); isC {
+					if h := hc.Common().StaticCallee(); h != nil && h.Pkg == f.Pkg && len(h.Blocks) > 0 && h.Signature.Results().Len() == 1 {
+						okAll := true
+						for _, hr := range Returns(h) {
+							rv := RetVal(hr, 0)
+							if p3, isP3 := rv.(*ssa.Phi); isP3 {
+								for i, e := range p3.Edges {
+									if !check(e, p3.Block().Preds[i], p3.Block(), depth+1) {
+										okAll = false
+									}
+								}
+							} else if !check(rv, hr.Block(), nil, depth+1) {
+								okAll = false
+							}
+						}
+						return okAll
+					}
+				}
 				if p2, isP := v.(*ssa.Phi); isP && p2 != ph {
 					for i, e := range p2.Edges {
-						if !check(e, p2.Block().Preds[i], depth+1) {
+						if !check(e, p2.Block().Preds[i], p2.Block(), depth+1) {
 							return false
 						}
 					}
@@ -103,7 +123,7 @@ func runC09(r *Report) {
 				if len(from.Instrs) > 0 {
 					if iff, isIf := from.Instrs[len(from.Instrs)-1].(*ssa.If); isIf && from.Succs[0] != from.Succs[1] {
 						for si, sb := range from.Succs {
-							if sb == ph.Block() {
+							if to != nil && sb == to {
 								c, pol := normCond(iff.Cond, si == 0)
 								fs = append(fs, Fact{Cond: c, Pol: pol, If: iff})
 							}
@@ -125,7 +145,7 @@ func runC09(r *Report) {
 				return false
 			}
 			for i, e := range ph.Edges {
-				if !check(e, ph.Block().Preds[i], 0) {
+				if !check(e, ph.Block().Preds[i], ph.Block(), 0) {
 					bounded = false
 				}
 			}
@@ -176,17 +196,48 @@ func runC09(r *Report) {
 			"TargetHost": "PortMapping.TargetHost", "TargetPort": "PortMapping.TargetPort",
 		}
 		got := map[string]string{}
-		Instrs(ssb, func(in ssa.Instruction) {
-			s, ok := in.(*ssa.Store)
-			if !ok {
-				return
-			}
-			t, f, base, ok := FieldOf(s.Addr)
-			if !ok || t != "WaitingState" || !IsFresh(base) {
-				return
-			}
-			got[f] = originSummary(s.Val)
-		})
+		scan := func(fn *ssa.Function, subst func(string) string) {
+			Instrs(fn, func(in ssa.Instruction) {
+				s, ok := in.(*ssa.Store)
+				if !ok {
+					return
+				}
+				t, f, base, ok := FieldOf(s.Addr)
+				if !ok || t != "WaitingState" || !IsFresh(base) {
+					return
+				}
+				got[f] = subst(originSummary(s.Val))
+			})
+		}
+		scan(ssb, func(o string) string { return o })
+		// the record may be built by a helper that startSourceBridge hands the request and the mapping to
+		// (registerWaitingRoute-style): its parameters are traced back to the arguments given here
+		var regSiteInSsb ssa.CallInstruction
+		if len(got) == 0 {
+			Instrs(ssb, func(in ssa.Instruction) {
+				hc, ok := in.(*ssa.Call)
+				if !ok {
+					return
+				}
+				h := hc.Common().StaticCallee()
+				if h == nil || h.Pkg != ssb.Pkg || len(h.Blocks) == 0 || h == ssb || len(Calls(h, false, "RegisterWaitingTunnel")) == 0 {
+					return
+				}
+				regSiteInSsb = hc
+				scan(h, func(o string) string {
+					for i, hp := range h.Params {
+						if i < len(hc.Common().Args) {
+							a := originSummary(hc.Common().Args[i])
+							o = strings.ReplaceAll(o, "(param:"+hp.Name()+")", "("+a+")")
+							if o == "param:"+hp.Name() {
+								o = a
+							}
+						}
+					}
+					return o
+				})
+			})
+		}
 		for f, w := range want {
 			o, set := got[f]
 			good := set && strings.Contains(o, w)
@@ -201,7 +252,11 @@ func runC09(r *Report) {
 			r.Ob("R-C09-1", CallPos(gp), o == "field:TunnelOpenRequest.MappingID(param:req)", "mapping loaded for "+o+" (want req.MappingID)", "startSourceBridge", "mapping-of-request")
 		}
 		// ---- R-C09-2: bridge in the map before the record is registered --------------
-		for _, rw := range Calls(ssb, false, "RegisterWaitingTunnel") {
+		regCalls := Calls(ssb, false, "RegisterWaitingTunnel")
+		if len(regCalls) == 0 && regSiteInSsb != nil {
+			regCalls = []ssa.CallInstruction{regSiteInSsb}
+		}
+		for _, rw := range regCalls {
 			isInsert := func(in ssa.Instruction) bool {
 				mu, ok := in.(*ssa.MapUpdate)
 				if !ok {
